@@ -2725,9 +2725,16 @@ class PGPKeyring(collections_abc.Container, collections_abc.Iterable, collection
         aliases = set().union(*self._aliases)
 
         if isinstance(alias, str):
-            return alias in aliases or alias.replace(' ', '') in aliases
+            return alias in aliases or self._squeeze(alias) in aliases
 
         return alias in aliases  # pragma: no cover
+
+    @staticmethod
+    def _squeeze(alias):
+        # a fingerprint or key id may be written in groups separated by spaces;
+        # names, comments and addresses are taken as they are
+        squeezed = alias.replace(' ', '')
+        return squeezed if re.match(r'^[0-9A-Fa-f]{8,40}$', squeezed) else alias
 
     def __len__(self):
         return len(self._keys)
@@ -2741,8 +2748,8 @@ class PGPKeyring(collections_abc.Container, collections_abc.Iterable, collection
             if alias in m:
                 return self._keys[m[alias]]
 
-            if alias.replace(' ', '') in m:
-                return self._keys[m[alias.replace(' ', '')]]
+            if self._squeeze(alias) in m:
+                return self._keys[m[self._squeeze(alias)]]
 
         raise KeyError(alias)
 
